@@ -4,6 +4,8 @@ import (
 	"crypto/ed25519"
 	"encoding/base32"
 	"strings"
+
+	"github.com/WICG/webpackage/go/internal/verifhook"
 )
 
 var webBundleIdSuffix = []byte{0x00, 0x01, 0x02}
@@ -13,6 +15,7 @@ var webBundleIdSuffix = []byte{0x00, 0x01, 0x02}
 // https://github.com/WICG/isolated-web-apps/blob/main/Scheme.md#signed-web-bundle-ids
 func GetWebBundleId(ed25519publicKey ed25519.PublicKey) string {
 	keyWithSuffix := append([]byte(ed25519publicKey), webBundleIdSuffix...)
+	verifhook.Point("webbundleid.GetWebBundleId.appended")
 
 	// StdEncoding is the standard base32 encoding, as defined in RFC 4648.
 	return strings.ToLower(base32.StdEncoding.EncodeToString(keyWithSuffix))
